@@ -50,7 +50,7 @@ PLACEHOLDER = '<sym>'
 
 class Ctx:
     """state of one path"""
-    MAX_CONCRETIZE = 40
+    MAX_CONCRETIZE = 400
 
     def __init__(self, prefix=(), timeout_ms=20000):
         self.solver = z3.Solver()
